@@ -12,6 +12,7 @@ import (
 	"sort"
 	"strconv"
 	"strings"
+	"sync"
 
 	"golang.org/x/tools/go/ssa"
 
@@ -52,6 +53,9 @@ type FuncContract struct {
 	Fn        *ssa.Function
 	Set       *Set
 	LenCases  []LenCase
+
+	loopMapOnce sync.Once
+	loopMap     map[int]int
 }
 
 // LenCase: "lencase x 5 6" — besides the general run (which then assumes len(x) is none of the listed values, or
